@@ -255,6 +255,13 @@ def sibling(ctx, qn, own_ok, closure, members):
                 acc_val = pol
             elif src(core) in (f'{p} is None', f"{p} == ''", f'isinstance({p}, str)'):
                 continue
+            elif parse_src in src(node) and any(parse_src not in a_ and a_ not in (f'{p} is None', f"'' == {p}", f'isinstance({p}, str)')
+                                                 for a_ in G.atoms_of(G._formula(node))):
+                # a compound test: next to the part about the parsed token it asks something else
+                extra_ = [a_ for a_ in G.atoms_of(G._formula(node)) if parse_src not in a_]
+                ok_atoms = False
+                ctx.violation('R3', at, fi.qualname, 'extra-condition',
+                              f'the outcome depends on `{extra_[0][:100]}`, not only on the accepted-category test')
             elif parse_src in src(node):
                 # a test about the parsed token that is none of the recognised forms of the accepted-category test: the rule
                 # cannot tell what it accepts - unknown, not wrong
